@@ -44,7 +44,7 @@ NEUTRAL_METHODS = {
 }
 # methods whose result also depends on another argument (joined)
 JOIN_ARG_METHODS = {'unwrap_or', 'or', 'chain', 'or_else_value', 'get_or_insert', 'max_by', 'min_by'}
-CLOSURE_RESULT_METHODS = {'map', 'and_then', 'filter_map', 'flat_map', 'find_map', 'then', 'map_while'}
+CLOSURE_RESULT_METHODS = {'map', 'and_then', 'filter_map', 'flat_map', 'find_map', 'map_while'}
 CLOSURE_JOIN_METHODS = {'unwrap_or_else', 'or_else', 'or_insert_with', 'get_or_insert_with', 'map_or_else_dflt'}
 BOOL_METHODS = {'is_empty', 'is_some', 'is_none', 'is_ok', 'is_err', 'contains', 'starts_with', 'ends_with',
                 'any', 'all', 'eq', 'ne', 'len', 'contains_key', 'is_ident', 'binary_search', 'position',
@@ -87,7 +87,8 @@ def join(terms):
         return ('absent',)
     if len(s) > 1:
         # x = join(a, x): a bare recursion marker adds nothing to a join that has other members
-        s2 = {t for t in s if t[0] != 'rec'}
+        # a diverging alternative has no value
+        s2 = {t for t in s if t[0] not in ('rec', 'diverge')} or {t for t in s if t[0] != 'rec'}
         if s2:
             s = s2
     if len(s) == 1:
@@ -390,6 +391,8 @@ class Prov:
                 out.append(('if', abstract_cond(c), pc[2]))
             elif pc[0] == 'match':
                 out.append(('match', abstract_cond(self.eval(fn, pc[1], env, d)), pc[2]))
+            elif pc[0] == 'nomatch':
+                out.append(('match', abstract_cond(self.eval(fn, pc[1], env, d)), ('not', pc[2])))
         if not any(self._has_rec(c[1]) for c in out):
             self.guard_memo[key] = out
         return out
@@ -417,6 +420,8 @@ class Prov:
         if base is None or base == ('absent',):
             return ('absent',)
         tag = base[0]
+        if tag == 'diverge':
+            return base
         if tag == 'join':
             return join([self.project(b, how, d) for b in base[1]])
         if tag == 'if':
@@ -456,6 +461,8 @@ class Prov:
         if base is None or base == ('absent',):
             return ('absent',)
         tag = base[0]
+        if tag == 'diverge':
+            return base
         if tag == 'join':
             return join([self.project_field(b, adt, name, d) for b in base[1]])
         if tag == 'if':
@@ -542,6 +549,12 @@ class Prov:
             v = self.eval(fn, e['expr'], env, d)
             # early-return guards: `if c { return x; }` statements before the tail expression
             for st in reversed(e['stmts']):
+                if st['k'] == 'let' and st.get('els') is not None and st.get('init') is not None:
+                    r = ret_expr_of(st['els'])
+                    if r is not None:
+                        ps = pat_summary(st['pat'])
+                        v = ('match', self.eval(fn, st['init'], env, d), ((('not', ps), ('early', self.eval(fn, r, env, d))), (ps, v)))
+                    continue
                 if st['k'] != 'stmt':
                     continue
                 x = st['e']
@@ -704,7 +717,7 @@ class Prov:
     def map_over(self, recv, clo, d):
         """Option/Iterator map: None stays None, alternatives are mapped separately"""
         tag = recv[0]
-        if tag in ('none', 'absent', 'unit'):
+        if tag in ('none', 'absent', 'unit', 'diverge'):
             return recv
         if tag == 'join':
             return join([self.map_over(m, clo, d) for m in recv[1]])
@@ -784,7 +797,7 @@ class Prov:
                     if self.in_closure(cfn, r):
                         continue
                     if r.get('e') is not None:
-                        vals.append(('early', self.eval(cfn, r['e'], env, d + 1)))
+                        vals.append(self.guarded_local(cfn, r, ('early', self.eval(cfn, r['e'], env, d + 1)), env, d + 1))
                 res = join([v for v in vals if v[0] != 'diverge'] or vals)
                 outs.append(res)
             finally:
@@ -887,7 +900,13 @@ class Prov:
             dflt = ev(argn[0])
             if meth == 'map_or_else':
                 dflt = self.apply_closure(dflt, [], d)
-            return join([dflt, self.apply_closure(ev(argn[1]), [recv], d)])
+            return ('orelse', self.map_over(recv, ev(argn[1]), d), dflt)
+        if meth == 'then' and len(argn) == 1 and 'bool' in (e['recv'].get('ty', '') + e['recv'].get('aty', '')):
+            return ('if', recv, self.apply_closure(ev(argn[0]), [], d), ('none',))
+        if meth == 'is_some_and' and len(argn) == 1:
+            return ('orelse', self.map_over(recv, ev(argn[0]), d), ('const', False))
+        if meth == 'is_none_or' and len(argn) == 1:
+            return ('orelse', self.map_over(recv, ev(argn[0]), d), ('const', True))
         if meth in ('unwrap_or_else', 'or_else') and argn:
             return ('orelse', recv, self.apply_closure(ev(argn[0]), [], d))
         if meth in ('unwrap_or', 'or') and argn:
@@ -984,7 +1003,7 @@ def ret_expr_of(block):
     last = b.get('expr')
     if last is None and b['stmts'] and b['stmts'][-1]['k'] == 'stmt':
         last = b['stmts'][-1]['e']
-    if last is not None and last.get('k') == 'ret' and last.get('e') is not None and len(b['stmts']) <= 1:
+    if last is not None and last.get('k') == 'ret' and last.get('e') is not None:
         return last['e']
     return None
 
@@ -1022,6 +1041,8 @@ def path_conds(fn, node, stop=None):
         elif k == 'block' and role == 'expr':
             for st in reversed(parent['stmts']):
                 out.extend(reversed(guards_of_stmt(st)))
+        elif k == 'let' and role == 'els':
+            out.append(('nomatch', parent['init'], pat_summary(parent['pat'])))
         elif k == 'binary' and role == 'r' and parent.get('op') in ('&&', '||'):
             # short-circuit: the right operand runs only if the left one is true (&&) / false (||)
             out.append(('if', parent['l'], parent['op'] == '&&'))
@@ -1146,13 +1167,29 @@ def leaves(t, conds=()):
     elif tag == 'early':
         yield from leaves(t[1], conds)
     else:
+        if strict_diverge(t):
+            return
         yield conds, t
+
+
+def strict_diverge(t):
+    """a value computed from a diverging expression through strict constructors never exists"""
+    while True:
+        tag = t[0]
+        if tag == 'diverge':
+            return True
+        if tag in ('xf',):
+            t = t[2]
+        elif tag in ('ident', 'field', 'tproj', 'cproj'):
+            t = t[1]
+        else:
+            return False
 
 
 def pat_may_match(pat, term):
     """can a value described by `term` match pattern summary `pat`?  (False only when certainly not)"""
     k = pat[0]
-    if k in ('wild', 'bind', 'other'):
+    if k in ('wild', 'bind', 'other', 'not'):
         return True
     if k == 'guarded':
         return pat_may_match(pat[1], term)
@@ -1291,6 +1328,8 @@ def show_pat(p):
         return '(' + ','.join(show_pat(x) for x in p[1]) + ')'
     if p[0] == 'or':
         return '|'.join(show_pat(x) for x in p[1])
+    if p[0] == 'not':
+        return 'not ' + show_pat(p[1])
     if p[0] == 'guarded':
         return show_pat(p[1]) + ' if …'
     return str(p)
